@@ -101,13 +101,12 @@ Qed.
 
 (** [reply_wellformed_partial].  Full statement (C12): for every world, connection and argument vector the
     reply of [wire_exec] is exactly one well-formed value for a strict parser, alone or followed by other
-    replies.  Proved: that, for every reply satisfying [reply_ok] ([reply_frame]: all reply shapes, all bytes,
+    replies.  Proved here: that, for every reply satisfying [reply_ok] ([reply_frame]: all reply shapes, all bytes,
     all sizes), and [reply_ok] itself for everything [wire_exec] answers on its own (PING, ECHO, SELECT, QUIT,
     the empty command, unknown command words) and for every handler whose leaves are [reply_ok] — shown
-    below for the list and string modules (17 handlers, all states).  For the hash / set / sorted-set /
-    generic handlers [leaves rok (h argv)] stays a hypothesis: their replies are parsed by the strict parser
-    on every generated case instead (checks/C12.py).  The model contains no [RRaw] / [REmpty] reply and no
-    [RSimple] with a non-literal payload (grep), the missing part is only the mechanical traversal. *)
+    below for the list and string modules (17 handlers, all states).  The hypothesis [leaves rok (h argv)] is
+    discharged for the hash / set / sorted-set / generic handlers in [Proofs/WireRepliesAll.v], which proves the
+    unconditional [reply_wellformed]. *)
 Theorem reply_wellformed_partial w c argv rest :
   (forall name h, handler_of name = Some h -> leaves rok (h argv)) ->
   let r := reply_of (snd (wire_exec w c argv)) in
